@@ -164,3 +164,73 @@ func VpH_C17_combine() {
 	vp.Cover("end")
 }
 
+
+// VpH_C17_minor: the REAL Eval as a whole on every position with the two kings and up to three minor pieces (any
+// mix of knights and bishops of either colour on any squares): this class contains every insufficient-material
+// position and the knight+bishop mating ending, i.e. all of Eval's special paths. The mirror image evaluates to the
+// same score from the mover's point of view.
+func VpH_C17_minor() {
+	stm := Color(vp.Param("stm"))
+	b := board.VpSymBoardMinors(stm, vp.Param("wk"), vp.Param("bk"), 3)
+	c := &Coefficients
+	m := board.VpMirror(b)
+	special := KNBvK(b) || insufficientMat(b)
+	if special {
+		vp.Cover("special-path")
+	}
+	vp.Assert(Eval(b, c) == Eval(m, c), "minor-piece-endings-whole-evaluation-symmetric")
+	vp.Cover("end")
+}
+
+// vpSpecial is Eval's path on the special material classes, built from the repository's own functions.
+func vpSpecial(b *board.Board, c *CoeffSet[Score]) Score {
+	if insufficientMat(b) {
+		return 0
+	}
+	sp := scorePair[Score]{}
+	sp.addPieceValues(b, c)
+	sp.KNBvK(b, c)
+	return sp.endgameScore(b)
+}
+
+// VpH_C17_special: every position with the two kings and up to three minor pieces (any mix of knights and bishops
+// of either colour on any squares) that falls into one of Eval's special material classes (insufficient material,
+// knight+bishop against the bare king): the special path is colour-symmetric (the mirror image scores the same from
+// the mover's point of view), and (whole=1) the REAL Eval computes the special path there.
+func VpH_C17_special() {
+	stm := Color(vp.Param("stm"))
+	b := board.VpSymBoardMinors(stm, vp.Param("wk"), vp.Param("bk"), 3)
+	m := board.VpMirror(b)
+	c := &Coefficients
+	vp.Assume(KNBvK(b) || insufficientMat(b))
+	vp.Assert(KNBvK(m) == KNBvK(b) && insufficientMat(m) == insufficientMat(b), "special-material-classes-symmetric")
+	vp.Assert(vpSpecial(b, c) == vpSpecial(m, c), "special-endings-symmetric")
+	if vp.Param("whole") == 1 {
+		vp.Assert(Eval(b, c) == vpSpecial(b, c), "special-endings-path-is-what-eval-computes")
+	}
+	vp.Cover("end")
+}
+
+// VpH_C17_path: on each special material class the REAL Eval computes exactly the special path (class 0:
+// insufficient material -> 0; class 1: knight+bishop against the bare king).
+func VpH_C17_path() {
+	stm := Color(vp.Param("stm"))
+	b := board.VpSymBoardMinors(stm, vp.Param("wk"), vp.Param("bk"), 3)
+	c := &Coefficients
+	if vp.Param("class") == 0 {
+		vp.Assume(insufficientMat(b))
+	} else {
+		vp.Assume(!insufficientMat(b))
+		vp.Assume(KNBvK(b))
+	}
+	vp.Assert(Eval(b, c) == vpSpecial(b, c), "special-endings-path-is-what-eval-computes")
+	vp.Cover("end")
+}
+
+// VpH_C17_whole: the whole-Eval miter on general material (diagnostic: does not close within the time budget).
+func VpH_C17_whole() {
+	b, m := vpSetup()
+	c := &Coefficients
+	vp.Assert(Eval(b, c) == Eval(m, c), "whole-evaluation-symmetric")
+	vp.Cover("end")
+}
